@@ -778,6 +778,9 @@ pub fn gen_op(m: &Model, p: &Profile, seed: &OpSeed) -> Option<Op> {
             };
             if new == nick {
                 "PING samenick".to_string()
+            } else if s.chance(5) {
+                // the old form with a hop count: the nickname is the first parameter
+                format!("NICK {} {}", new, ["1", "0", ":x y"][s.pick(3)])
             } else {
                 format!("NICK {}", new)
             }
